@@ -1,0 +1,30 @@
+package bill_test
+
+import (
+	"context"
+	"testing"
+
+	"github.com/invopop/gobl/bill"
+	"github.com/stretchr/testify/assert"
+	"github.com/stretchr/testify/require"
+)
+
+func TestTaxPricesIncludeCategory(t *testing.T) {
+	inv := baseInvoiceWithLines(t)
+	inv.Tax = &bill.Tax{PricesInclude: "VAT"}
+	require.NoError(t, inv.Calculate())
+	require.NoError(t, inv.Validate())
+
+	// a category the regime does not define
+	inv.Tax = &bill.Tax{PricesInclude: "ZZT"}
+	require.NoError(t, inv.Calculate())
+	assert.ErrorContains(t, inv.Validate(), "tax: (prices_include: must be a valid value.)")
+
+	ord := baseOrderWithLines(t)
+	ord.Tax = &bill.Tax{PricesInclude: "ZZT"}
+	require.NoError(t, ord.Calculate())
+	assert.ErrorContains(t, ord.Validate(), "tax: (prices_include: must be a valid value.)")
+
+	// without a regime there are no categories to compare with
+	assert.NoError(t, (&bill.Tax{PricesInclude: "ZZT"}).ValidateWithContext(context.Background()))
+}
